@@ -407,9 +407,10 @@ func decLateSweep(c *corr.Ctx) {
 // decEnum: small-scope enumeration — every sequence of `length` packets over two tracks and the
 // timestamps at the wrap / sign boundaries (all interleavings, all step signs, refusals included).
 func decEnum(c *corr.Ctx) {
-	tss := []uint32{0, 1, 1<<31 - 1, 1 << 31, 1<<31 + 1, 1<<32 - 1}
+	tss := []uint32{0, 1<<31 - 1, 1 << 31, 1<<32 - 1}
 	length := 4
 	if !c.Quick() {
+		tss = []uint32{0, 1, 1<<31 - 1, 1 << 31, 1<<31 + 1, 1<<32 - 1}
 		length = 5
 	}
 	type choice struct {
